@@ -125,6 +125,7 @@ fn main() {
             }
         }
         "signal-child" => { println!("{}", cvh::run::signal_child()); }
+        "signal-drain-child" => { println!("{}", cvh::run::signal_drain_child(args.get(2).map(|a| a == "sigint-first").unwrap_or(true))); }
         "twin-child" => {
             let a: Vec<u64> = args[2..8].iter().map(|x| x.parse().unwrap()).collect();
             // the environment is not an input of a run: restrict this process to ONE of its CPUs when asked to
